@@ -320,8 +320,8 @@ def main():
             n = max(2 * w + 1, 3)
             chk.add(boundary_zone, real_t=rt, dim=2, width=w, shape=(n, n + 1), field_type="scalar")
             if w <= (2 if chk.quick else 4):
-                chk.add(boundary_zone, real_t=rt, dim=3, width=w, shape=(n, n + 1, n), field_type="scalar")
-                chk.add(boundary_zone, real_t=rt, dim=3, width=w, shape=(n + 1, n, n), field_type="vector")
+                chk.add(boundary_zone, real_t=rt, dim=3, width=w, shape=(n, n + 1, n + 2), field_type="scalar")
+                chk.add(boundary_zone, real_t=rt, dim=3, width=w, shape=(n + 2, n, n + 1), field_type="vector")
         orders = (1, 2) if chk.quick else (1, 2, 3, 4)
         for order in orders:
             for ftype in ("multiplicative", "convolution"):
